@@ -246,3 +246,368 @@ pub fn replay_poly(lines: &[Value], _seed: u64) -> ReplayReport {
     rep.violations.truncate(50);
     rep
 }
+
+// ===================================================================== C14 operators
+
+fn op_event(ty: &str, op: &str, a: &[f64], b: &[f64], s: f64, r: &[f64], r2: &[f64]) -> Value {
+    json!({"ev":"op","type":ty,"op":op,"a":jbs(a),"b":jbs(b),"s":jb(s),"r":jbs(r),"r2":jbs(r2)})
+}
+
+struct OpCov(std::collections::BTreeSet<String>);
+impl OpCov {
+    fn hit(&mut self, ty: &str, op: &str) {
+        self.0.insert(format!("{ty}::{op}"));
+    }
+}
+
+fn flat_of<T: Form>(rng: &mut Rng) -> Vec<f64> {
+    let n = T::arity().unwrap_or_else(|| rng.below(7) as usize);
+    coeffs(rng, n)
+}
+
+/// Mul, MulAssign, Neg, Add, Translate on a fixed-degree polynomial type
+macro_rules! ops_poly {
+    ($T:ty, $rng:expr, $sink:expr, $cov:expr) => {{
+        let ty = <$T as Form>::name();
+        let a = flat_of::<$T>($rng);
+        let b = flat_of::<$T>($rng);
+        let s = scalar($rng);
+        let pa = <$T>::from_flat(&a);
+        let pb = <$T>::from_flat(&b);
+        let r = (pa.clone() * s).flat();
+        let mut m = pa.clone();
+        m *= s;
+        $sink.ev(op_event(&ty, "mul", &a, &[], s, &r, &m.flat()));
+        $cov.hit(&ty, "mul");
+        $cov.hit(&ty, "mul_assign");
+        $sink.ev(op_event(&ty, "neg", &a, &[], 0.0, &(-pa.clone()).flat(), &[]));
+        $cov.hit(&ty, "neg");
+        $sink.ev(op_event(&ty, "add", &a, &b, 0.0, &(pa.clone() + pb).flat(), &[]));
+        $cov.hit(&ty, "add");
+        let mut t = pa.clone();
+        t.translate(s);
+        $sink.ev(op_event(&ty, "translate", &a, &[], s, &t.flat(), &[]));
+        $cov.hit(&ty, "translate");
+    }};
+}
+
+/// Mul, MulAssign, Translate on Log<P>
+macro_rules! ops_log {
+    ($P:ty, $rng:expr, $sink:expr, $cov:expr) => {{
+        type T = Log<$P>;
+        let ty = <T as Form>::name();
+        let a = flat_of::<T>($rng);
+        let s = scalar($rng);
+        let pa = T::from_flat(&a);
+        let r = (pa.clone() * s).flat();
+        let mut m = pa.clone();
+        m *= s;
+        $sink.ev(op_event(&ty, "mul", &a, &[], s, &r, &m.flat()));
+        $cov.hit(&ty, "mul");
+        $cov.hit(&ty, "mul_assign");
+        let mut t = pa.clone();
+        t.translate(s);
+        $sink.ev(op_event(&ty, "translate", &a, &[], s, &t.flat(), &[]));
+        $cov.hit(&ty, "translate");
+    }};
+}
+
+/// Add, Mul, MulAssign, Neg, Translate on IntOfLog<P>
+macro_rules! ops_intoflog {
+    ($P:ty, $rng:expr, $sink:expr, $cov:expr) => {{
+        type T = IntOfLog<$P>;
+        let ty = <T as Form>::name();
+        let a = flat_of::<T>($rng);
+        let b = flat_of::<T>($rng);
+        let s = scalar($rng);
+        let pa = T::from_flat(&a);
+        let pb = T::from_flat(&b);
+        let r = (pa.clone() * s).flat();
+        let mut m = pa.clone();
+        m *= s;
+        $sink.ev(op_event(&ty, "mul", &a, &[], s, &r, &m.flat()));
+        $cov.hit(&ty, "mul");
+        $cov.hit(&ty, "mul_assign");
+        $sink.ev(op_event(&ty, "neg", &a, &[], 0.0, &(-pa.clone()).flat(), &[]));
+        $cov.hit(&ty, "neg");
+        $sink.ev(op_event(&ty, "add", &a, &b, 0.0, &(pa.clone() + pb).flat(), &[]));
+        $cov.hit(&ty, "add");
+        let mut t = pa.clone();
+        t.translate(s);
+        $sink.ev(op_event(&ty, "translate", &a, &[], s, &t.flat(), &[]));
+        $cov.hit(&ty, "translate");
+    }};
+}
+
+pub fn drive_ops(seed: u64, rounds: usize, sink: &mut Sink) -> usize {
+    let mut rng = Rng::new(seed);
+    let mut cov = OpCov(Default::default());
+    for _ in 0..rounds {
+        let rng = &mut rng;
+        ops_poly!(Poly0, rng, sink, cov);
+        ops_poly!(Poly1, rng, sink, cov);
+        ops_poly!(Poly2, rng, sink, cov);
+        ops_poly!(Poly3, rng, sink, cov);
+        ops_poly!(Poly4, rng, sink, cov);
+        ops_poly!(Poly5, rng, sink, cov);
+        ops_poly!(Poly6, rng, sink, cov);
+        ops_poly!(Poly7, rng, sink, cov);
+        ops_poly!(Poly8, rng, sink, cov);
+        ops_log!(Poly0, rng, sink, cov);
+        ops_log!(Poly1, rng, sink, cov);
+        ops_log!(Poly2, rng, sink, cov);
+        ops_log!(Poly3, rng, sink, cov);
+        ops_log!(Poly4, rng, sink, cov);
+        ops_log!(Poly5, rng, sink, cov);
+        ops_log!(Poly6, rng, sink, cov);
+        ops_log!(Poly7, rng, sink, cov);
+        ops_log!(Poly8, rng, sink, cov);
+        ops_intoflog!(Poly0, rng, sink, cov);
+        ops_intoflog!(Poly1, rng, sink, cov);
+        ops_intoflog!(Poly2, rng, sink, cov);
+        ops_intoflog!(Poly3, rng, sink, cov);
+        ops_intoflog!(Poly4, rng, sink, cov);
+        ops_intoflog!(Poly5, rng, sink, cov);
+        ops_intoflog!(Poly6, rng, sink, cov);
+        ops_intoflog!(Poly7, rng, sink, cov);
+        ops_intoflog!(Poly8, rng, sink, cov);
+        // PolyN: translate, empty and non-empty; also through Log
+        {
+            let n = if rng.below(3) == 0 { 0 } else { 1 + rng.below(6) as usize };
+            let a = coeffs(rng, n);
+            let s = scalar(rng);
+            let mut t = PolyN(a.clone());
+            t.translate(s);
+            sink.ev(op_event("PolyN", "translate", &a, &[], s, &t.0, &[]));
+            cov.hit("PolyN", if n == 0 { "translate(empty)" } else { "translate" });
+            let mut t = Log(PolyN(a.clone()));
+            t.translate(s);
+            sink.ev(op_event("Log<PolyN>", "translate", &a, &[], s, &(t.0).0, &[]));
+            cov.hit("Log<PolyN>", if n == 0 { "translate(empty)" } else { "translate" });
+        }
+        // IntOfLogPoly4: Add, &Add, Neg, Mul, Sub, &Sub, Translate
+        {
+            let ty = "IntOfLogPoly4";
+            let a = coeffs(rng, 6);
+            let b = coeffs(rng, 6);
+            let s = scalar(rng);
+            let pa = IntOfLogPoly4::from_flat(&a);
+            let pb = IntOfLogPoly4::from_flat(&b);
+            sink.ev(op_event(ty, "add", &a, &b, 0.0, &(pa + pb).flat(), &[]));
+            cov.hit(ty, "add");
+            sink.ev(op_event("&IntOfLogPoly4", "add", &a, &b, 0.0, &(&pa + &pb).flat(), &[]));
+            cov.hit(ty, "&add");
+            sink.ev(op_event(ty, "sub", &a, &b, 0.0, &(pa - pb).flat(), &[]));
+            cov.hit(ty, "sub");
+            sink.ev(op_event("&IntOfLogPoly4", "sub", &a, &b, 0.0, &(&pa - &pb).flat(), &[]));
+            cov.hit(ty, "&sub");
+            sink.ev(op_event(ty, "neg", &a, &[], 0.0, &(-pa).flat(), &[]));
+            cov.hit(ty, "neg");
+            sink.ev(op_event(ty, "mul", &a, &[], s, &(pa * s).flat(), &[]));
+            cov.hit(ty, "mul");
+            let mut t = pa;
+            t.translate(s);
+            sink.ev(op_event(ty, "translate", &a, &[], s, &t.flat(), &[]));
+            cov.hit(ty, "translate");
+        }
+    }
+    cov.0.len()
+}
+
+// ===================================================================== C08 derivative
+
+pub fn drive_deriv(seed: u64, rounds: usize, sink: &mut Sink) -> usize {
+    let mut rng = Rng::new(seed);
+    let mut nontrivial = 0;
+    for _ in 0..rounds {
+        for len in 1..=9usize {
+            let a = coeffs(&mut rng, len);
+            let r: Vec<f64> = crate::with_poly_type!(len, T, { T::from_flat(&a).derivative().flat() });
+            sink.ev(json!({"ev":"deriv","type":format!("Poly{}", len - 1),"a":jbs(&a),"r":jbs(&r)}));
+            if len > 2 {
+                nontrivial += 1;
+            }
+        }
+    }
+    nontrivial
+}
+
+// ===================================================================== C07 integration
+
+pub fn knot_x(rng: &mut Rng) -> f64 {
+    match rng.below(6) {
+        0 => 0.0,
+        1 => -0.0,
+        2 => rng.nice(),
+        3 => rng.float_exp(-30, -5),
+        4 => rng.float_exp(3, 12),
+        _ => rng.float_exp(-3, 3),
+    }
+}
+
+pub fn drive_integ(seed: u64, rounds: usize, sink: &mut Sink) -> usize {
+    let mut rng = Rng::new(seed);
+    let mut nontrivial = 0;
+    for _ in 0..rounds {
+        for len in 1..=8usize {
+            let c = coeffs(&mut rng, len);
+            let knot = Knot { x: knot_x(&mut rng), y: if rng.below(4) == 0 { 0.0 } else { rng.float_exp(-10, 10) } };
+            let (pa, pb) = (knot_x(&mut rng), knot_x(&mut rng));
+            // via the polynomial's own integral() and via Segment::integral (used by piecewise)
+            let via_segment = rng.bool();
+            let (indef, integ, dback, fa, fb): (Vec<f64>, Vec<f64>, Vec<f64>, f64, f64) = crate::with_int_poly_type!(len, T, {
+                let p = T::from_flat(&c);
+                if via_segment {
+                    let s = Segment { end: 1.0, poly: p };
+                    let i = s.integral(knot);
+                    (s.indefinite().poly.flat(), i.poly.flat(), i.derivative().poly.flat(), i.evaluate(pa), i.evaluate(pb))
+                } else {
+                    let i = p.integral(knot);
+                    (p.indefinite().flat(), i.flat(), i.derivative().flat(), i.evaluate(pa), i.evaluate(pb))
+                }
+            });
+            sink.ev(json!({"ev":"integ","type":format!("{}Poly{}", if via_segment {"Segment:"} else {""}, len - 1),"c":jbs(&c),
+                "kx":jb(knot.x),"ky":jb(knot.y),"indef":jbs(&indef),"integ":jbs(&integ),"dback":jbs(&dback),
+                "pa":jb(pa),"pb":jb(pb),"fa":jb(fa),"fb":jb(fb)}));
+            nontrivial += 1;
+        }
+    }
+    nontrivial
+}
+
+// ===================================================================== C15 / C08 piecewise operations
+
+fn pw_event<T: Form + Copy, R: Form + Copy>(op: &str, p: &Piecewise<T>, s: f64, r: &Piecewise<R>, alone: &[Vec<f64>]) -> Value {
+    json!({"ev":"pwop","type":format!("Piecewise<{}>", T::name()),"op":op,
+        "ends":jbs(&ends_of(p)),"pieces":p.segments.iter().map(|x| jbs(&x.poly.flat())).collect::<Vec<_>>(),"s":jb(s),
+        "rends":jbs(&ends_of(r)),"rpieces":r.segments.iter().map(|x| jbs(&x.poly.flat())).collect::<Vec<_>>(),
+        "alone":alone.iter().map(|v| jbs(v)).collect::<Vec<_>>()})
+}
+
+fn random_pw<T: Form + Copy>(rng: &mut Rng) -> Piecewise<T> {
+    let n = 1 + rng.size(5, 12, 4) as usize;
+    let ends = crate::order::random_ends(rng, n);
+    Piecewise { segments: ends.iter().map(|&e| Segment { end: e, poly: T::from_flat(&flat_of::<T>(rng)) }).collect() }
+}
+
+/// a scalar for translate/scale that includes the tiny ones (a shift below epsilon still shifts)
+fn pw_scalar(rng: &mut Rng) -> f64 {
+    match rng.below(6) {
+        0 => rng.float_exp(-80, -50),
+        1 => 0.0,
+        _ => scalar(rng),
+    }
+}
+
+macro_rules! pw_mul {
+    ($T:ty, $rng:expr, $sink:expr, $cov:expr) => {{
+        let p: Piecewise<$T> = random_pw($rng);
+        let s = pw_scalar($rng);
+        let alone: Vec<Vec<f64>> = p.segments.iter().map(|x| (x.poly * s).flat()).collect();
+        let r = p.clone() * s;
+        $sink.ev(pw_event("mul", &p, s, &r, &alone));
+        // Segment by value
+        let sg = p.segments[0];
+        let rs = sg * s;
+        $sink.ev(pw_event("mul", &Piecewise { segments: vec![sg] }, s, &Piecewise { segments: vec![rs] }, &alone[..1]));
+        $cov.hit(&<$T as Form>::name(), "pw*");
+    }};
+}
+macro_rules! pw_mul_assign {
+    ($T:ty, $rng:expr, $sink:expr, $cov:expr) => {{
+        let p: Piecewise<$T> = random_pw($rng);
+        let s = pw_scalar($rng);
+        let alone: Vec<Vec<f64>> = p.segments.iter().map(|x| (x.poly * s).flat()).collect();
+        let mut r = p.clone();
+        r *= s;
+        $sink.ev(pw_event("mul", &p, s, &r, &alone));
+        // Segment: by value and through &mut Segment (two impls)
+        let mut sg = p.segments[0];
+        sg *= s;
+        let mut sg2 = p.segments[0];
+        {
+            let mut rf = &mut sg2;
+            rf *= s;
+        }
+        $sink.ev(pw_event("mul", &Piecewise { segments: vec![p.segments[0], p.segments[0]] }, s, &Piecewise { segments: vec![sg, sg2] }, &[alone[0].clone(), alone[0].clone()]));
+        $cov.hit(&<$T as Form>::name(), "pw*=");
+    }};
+}
+macro_rules! pw_neg {
+    ($T:ty, $rng:expr, $sink:expr, $cov:expr) => {{
+        let p: Piecewise<$T> = random_pw($rng);
+        let alone: Vec<Vec<f64>> = p.segments.iter().map(|x| (-x.poly).flat()).collect();
+        let r = -p.clone();
+        $sink.ev(pw_event("neg", &p, 0.0, &r, &alone));
+        $cov.hit(&<$T as Form>::name(), "pw-neg");
+    }};
+}
+macro_rules! pw_translate {
+    ($T:ty, $rng:expr, $sink:expr, $cov:expr) => {{
+        let p: Piecewise<$T> = random_pw($rng);
+        let s = pw_scalar($rng);
+        let alone: Vec<Vec<f64>> = p.segments.iter().map(|x| { let mut q = x.poly; q.translate(s); q.flat() }).collect();
+        let mut r = p.clone();
+        r.translate(s);
+        $sink.ev(pw_event("translate", &p, s, &r, &alone));
+        let mut sg = p.segments[0];
+        sg.translate(s);
+        $sink.ev(pw_event("translate", &Piecewise { segments: vec![p.segments[0]] }, s, &Piecewise { segments: vec![sg] }, &alone[..1]));
+        $cov.hit(&<$T as Form>::name(), "pw-translate");
+    }};
+}
+macro_rules! pw_deriv {
+    ($T:ty, $rng:expr, $sink:expr, $cov:expr) => {{
+        let mut p: Piecewise<$T> = random_pw($rng);
+        // neighbours that differ in the constant term only, or not at all: their derivatives coincide
+        if p.segments.len() >= 2 && $rng.below(2) == 0 {
+            let i = $rng.below(p.segments.len() as u64 - 1) as usize;
+            let mut q = p.segments[i].poly;
+            if $rng.bool() { q.translate(1.5); }
+            p.segments[i + 1].poly = q;
+        }
+        let alone: Vec<Vec<f64>> = p.segments.iter().map(|x| x.poly.derivative().flat()).collect();
+        let r = p.derivative();
+        $sink.ev(pw_event("deriv", &p, 0.0, &r, &alone));
+        let sg = p.segments[0];
+        $sink.ev(pw_event("deriv", &Piecewise { segments: vec![sg] }, 0.0, &Piecewise { segments: vec![sg.derivative()] }, &alone[..1]));
+        $cov.hit(&<$T as Form>::name(), "pw-deriv");
+    }};
+}
+
+pub fn drive_pwops(seed: u64, rounds: usize, sink: &mut Sink) -> usize {
+    let mut rng = Rng::new(seed);
+    let mut cov = OpCov(Default::default());
+    for _ in 0..rounds {
+        let rng = &mut rng;
+        pw_mul!(Poly1, rng, sink, cov);
+        pw_mul!(Poly3, rng, sink, cov);
+        pw_mul!(Poly8, rng, sink, cov);
+        pw_mul!(Log<Poly2>, rng, sink, cov);
+        pw_mul!(IntOfLogPoly4, rng, sink, cov);
+        pw_mul!(IntOfLog<Poly2>, rng, sink, cov);
+        pw_mul_assign!(Poly0, rng, sink, cov);
+        pw_mul_assign!(Poly3, rng, sink, cov);
+        pw_mul_assign!(Log<Poly5>, rng, sink, cov);
+        pw_mul_assign!(IntOfLog<Poly1>, rng, sink, cov);
+        pw_neg!(Poly2, rng, sink, cov);
+        pw_neg!(Poly7, rng, sink, cov);
+        pw_neg!(IntOfLogPoly4, rng, sink, cov);
+        pw_neg!(IntOfLog<Poly3>, rng, sink, cov);
+        pw_translate!(Poly0, rng, sink, cov);
+        pw_translate!(Poly4, rng, sink, cov);
+        pw_translate!(Log<Poly1>, rng, sink, cov);
+        pw_translate!(IntOfLogPoly4, rng, sink, cov);
+        pw_translate!(IntOfLog<Poly6>, rng, sink, cov);
+        pw_deriv!(Poly0, rng, sink, cov);
+        pw_deriv!(Poly1, rng, sink, cov);
+        pw_deriv!(Poly2, rng, sink, cov);
+        pw_deriv!(Poly3, rng, sink, cov);
+        pw_deriv!(Poly4, rng, sink, cov);
+        pw_deriv!(Poly5, rng, sink, cov);
+        pw_deriv!(Poly6, rng, sink, cov);
+        pw_deriv!(Poly7, rng, sink, cov);
+        pw_deriv!(Poly8, rng, sink, cov);
+    }
+    cov.0.len()
+}
